@@ -84,6 +84,9 @@ pub struct Doc {
     /// lines end in CR LF instead of LF
     #[serde(default)]
     pub crlf: bool,
+    /// the text starts with a byte order mark (U+FEFF), as some editors write it
+    #[serde(default)]
+    pub bom: bool,
 }
 
 pub const DEFAULT_DS: &str = "<!-- <";
@@ -101,8 +104,8 @@ pub const DELIMS: &[(&str, &str)] = &[
     ("/*‹", "›*/"),
 ];
 
-pub const TL_TAGS: &[&str] = &["time-limited", "tl", "expires", "期限"];
-pub const RM_TAGS: &[&str] = &["removal-marker", "marker", "flag", "rm"];
+pub const TL_TAGS: &[&str] = &["time-limited", "tl", "expires", "期限", "TimeLimited", "EXPIRES"];
+pub const RM_TAGS: &[&str] = &["removal-marker", "marker", "flag", "rm", "Marker", "FLAG"];
 pub const OTHER_TAGS: &[&str] = &["note", "todo", "time-limit", "removal", "keep"];
 
 const CODE_LINES: &[&str] = &[
@@ -176,7 +179,7 @@ impl Elem {
         v.push(format!("c={}e{}{}", q, self.id, q));
         if self.style & 0x80 != 0 {
             // an attribute the tool does not know, with blanks and an equals sign in its value
-            v.push(format!("owner={}team a=b{}", q, q));
+            v.push(format!("owner={}期限: spring campaign, team a=b{}", q, q));
         }
         if self.unwrap.is_some() || self.unwrap_degenerate {
             v.push("unwrap-block".to_string());
@@ -307,6 +310,9 @@ impl Doc {
         let mut s = lines.join("\n").replace('\n', nl);
         if self.final_newline && !lines.is_empty() {
             s.push_str(nl);
+        }
+        if self.bom {
+            s.insert(0, '\u{feff}');
         }
         s
     }
@@ -540,6 +546,11 @@ impl Doc {
         if self.crlf {
             let mut d = self.clone();
             d.crlf = false;
+            out.push(d);
+        }
+        if self.bom {
+            let mut d = self.clone();
+            d.bom = false;
             out.push(d);
         }
         if let Some((n, at_start)) = self.pad {
@@ -860,5 +871,6 @@ pub fn generate(rng: &mut Rng, p: &GenParams) -> Doc {
     let final_newline = g.rng.chance(5, 6);
     let pad = if p.large_inputs && g.rng.chance(1, 100) { Some((*g.rng.pick(&[300u32, 2_000, 6_000]), g.rng.chance(1, 2))) } else { None };
     let crlf = p.crlf_eighths > 0 && g.rng.chance(p.crlf_eighths, 8);
-    Doc { ds, de, tl_tag: tl, rm_tag: rm, nodes, final_newline, pad, crlf }
+    let bom = p.large_inputs && g.rng.chance(1, 40);
+    Doc { ds, de, tl_tag: tl, rm_tag: rm, nodes, final_newline, pad, crlf, bom }
 }
